@@ -950,7 +950,15 @@ type c11PStep struct {
 	Block  int       `json:"block,omitempty"` // walk target (model block index)
 }
 
+// c11Guard: what an admitted guarded transaction needed (for re-admission after a walk).
+type c11Guard struct {
+	owner    string
+	verified []string
+	what     string
+}
+
 type c11Pipe struct {
+	guards  map[string]c11Guard // txid -> requirement of a guarded transaction that was admitted
 	nm      *hx.NodeMachine
 	byJSON  map[string]c11Rule // ACL JSON as stored on chain -> descriptor
 	base    int                // index of the setup block (never undone)
@@ -1080,6 +1088,28 @@ func c11ForeignOrMiddle(owner string, uris []string) bool {
 	return false
 }
 
+// checkReadmitted: a walk rolls the whole pool back and re-admits it on the new confirmed block; a guarded transaction
+// that is pending afterwards must be authorised by the owner's rule in force THERE (the branch walked to may lack the
+// rule change that authorised it).
+func (p *c11Pipe) checkReadmitted(after string) error {
+	cr, err := p.confirmedRules()
+	if err != nil {
+		return err
+	}
+	for _, tx := range p.nm.Pool {
+		g, ok := p.guards[string(tx.Txid)]
+		if !ok {
+			continue
+		}
+		p.stat["guarded-tx-pending-across-walk"]++
+		if !c11Ref(cr, g.owner, g.verified) {
+			return fmt.Errorf("after %s the pool still holds (re-admitted) a %s although the verified signers %v do not satisfy the rule of %s on the confirmed chain now: %s",
+				after, g.what, g.verified, g.owner, c11RuleText(cr, ""))
+		}
+	}
+	return nil
+}
+
 func (p *c11Pipe) checkNode() error {
 	if err := p.nm.CheckState(); err != nil {
 		return err
@@ -1170,6 +1200,11 @@ func (p *c11Pipe) apply(st c11PStep) error {
 		if err := nm.Apply(hx.NOp{Op: "sync"}); err != nil {
 			return err
 		}
+		if nm.LastOutcome != "skipped" {
+			if err := p.checkReadmitted("the walk to the ledger tip"); err != nil {
+				return err
+			}
+		}
 		return p.checkNode()
 	case "walk":
 		if st.Block < p.base || st.Block >= len(m.Blocks) || !m.OnMain(st.Block) {
@@ -1180,6 +1215,11 @@ func (p *c11Pipe) apply(st c11PStep) error {
 		}
 		if nm.LastUndo > 0 {
 			p.stat["walk-back"]++
+		}
+		if nm.LastOutcome != "skipped" {
+			if err := p.checkReadmitted(fmt.Sprintf("the walk to block %d", st.Block)); err != nil {
+				return err
+			}
 		}
 		return p.checkNode()
 	case "change", "spend":
@@ -1376,6 +1416,7 @@ func (p *c11Pipe) change(st c11PStep) error {
 		}
 		nm.Pool = append(nm.Pool, tx)
 		c11NoteKeys(nm, tx)
+		p.guards[string(tx.Txid)] = c11Guard{owner: v.owner, verified: v.verified, what: what}
 		p.stat[st.Op+"-accepted"]++
 	} else {
 		p.stat[st.Op+"-refused"]++
@@ -1429,7 +1470,7 @@ func c11NewPipe(fs *hx.FindingSet) (*c11Pipe, error) {
 		return nil, err
 	}
 	nm.AddrUniv = append(nm.AddrUniv, c11Real("acc"), c11Real("X2"))
-	return &c11Pipe{nm: nm, byJSON: map[string]c11Rule{}, stat: map[string]int{}}, nil
+	return &c11Pipe{nm: nm, byJSON: map[string]c11Rule{}, stat: map[string]int{}, guards: map[string]c11Guard{}}, nil
 }
 
 // c11RunPipelineTrace replays a recorded pipeline history.
@@ -1631,7 +1672,15 @@ func c11RunPipelineCase(cs *hx.Case, fs *hx.FindingSet) {
 	n := rapid.IntRange(4, 16).Draw(rt, "steps")
 	for i := 0; i < n; i++ {
 		m := p.nm.LM.M
-		switch k := rapid.IntRange(0, 99).Draw(rt, "op"); {
+		k := rapid.IntRange(0, 99).Draw(rt, "op")
+		// a guarded transaction is pending: walks (which re-admit the pool under another confirmed rule) get more weight
+		for _, ptx := range p.nm.Pool {
+			if _, ok := p.guards[string(ptx.Txid)]; ok && k >= 50 && k < 68 && p.nm.Ptr >= p.base {
+				k = 90
+				break
+			}
+		}
+		switch {
 		case k < 68:
 			if p.nm.Ptr < p.base {
 				exec(c11PStep{Op: "sync"})
